@@ -451,6 +451,14 @@ class Translator:
         if len(node.generators) != 1 or node.generators[0].ifs or not isinstance(node.generators[0].target, ast.Name):
             _bad(node, "list comprehension form")
         src = self.expr(node.generators[0].iter, env, heap)
+        if src[0] == "pylist":
+            # a list display known at translation time: the comprehension is unrolled
+            out = []
+            for item in src[1]:
+                env2 = dict(env)
+                env2[node.generators[0].target.id] = item
+                out.append(self.expr(node.elt, env2, heap))
+            return ("pylist", out)
         if src[0] != "L":
             _bad(node, "comprehension over a non-list")
         var = node.generators[0].target.id
